@@ -1,10 +1,385 @@
-use crate::case::Case;
-use crate::engine::Worker;
-use crate::oracle::Violation;
+//! C17 — extracting images and compiling them back reproduces the embedded textures.
+//!
+//! A store/load round trip through a directory tree on a real (fault-injected) file system:
+//! `extract` creates directories and PNG files, `compile -i dir` stats and decodes them.
+//!
+//! Workload: (a) corpus ANMs with embedded images; (b) generated ANMs: a seed-drawn RGBA PNG is
+//! compiled into a one-entry ANM in every colour format, dimensions 1..64, offsets 0..8; then
+//! decompile -> spec, extract -> PNG tree, compile spec -i tree must equal the original, and the
+//! control `compile spec -i original.anm` must equal the original too ("ANM sources copy verbatim").
+//! (c) orderings of up to three image sources (two directories with different images, one ANM, one
+//! directory that supplies nothing) against a reference model: the output equals the output obtained
+//! with only the last source that supplies the path.  (d) faults: every write/mkdir/create event of
+//! `extract`, disk-full budgets inside the PNGs, every open/read event of the compile-from-directory.
 
-pub fn oracle_extract_roundtrip(_w: &mut Worker, _case: &Case) -> Vec<Violation> {
-    vec![]
+use crate::case::{Case, Input, Step};
+use crate::engine::*;
+use crate::oracle::*;
+use crate::report::CheckResult;
+use crate::rng::{self, Rng};
+use serde_json::json;
+use std::collections::BTreeMap;
+
+fn s(x: &str) -> String {
+    x.to_string()
 }
-pub fn oracle_multisource(_w: &mut Worker, _case: &Case) -> Vec<Violation> {
-    vec![]
+
+// ------------------------------------------------------------------------------- tiny PNG encoder
+
+fn crc32(data: &[u8]) -> u32 {
+    let mut c: u32 = 0xFFFF_FFFF;
+    for &b in data {
+        c ^= b as u32;
+        for _ in 0..8 {
+            c = if c & 1 != 0 { 0xEDB8_8320 ^ (c >> 1) } else { c >> 1 };
+        }
+    }
+    !c
+}
+
+fn adler32(data: &[u8]) -> u32 {
+    let (mut a, mut b) = (1u32, 0u32);
+    for &x in data {
+        a = (a + x as u32) % 65521;
+        b = (b + a) % 65521;
+    }
+    (b << 16) | a
+}
+
+fn chunk(out: &mut Vec<u8>, kind: &[u8; 4], data: &[u8]) {
+    out.extend_from_slice(&(data.len() as u32).to_be_bytes());
+    let mut body = kind.to_vec();
+    body.extend_from_slice(data);
+    out.extend_from_slice(&body);
+    out.extend_from_slice(&crc32(&body).to_be_bytes());
+}
+
+/// RGBA8 PNG with stored (uncompressed) deflate blocks.
+pub fn encode_png(w: u32, h: u32, rgba: &[u8]) -> Vec<u8> {
+    assert_eq!(rgba.len(), (w * h * 4) as usize);
+    let mut out = vec![0x89, b'P', b'N', b'G', 0x0D, 0x0A, 0x1A, 0x0A];
+    let mut ihdr = vec![];
+    ihdr.extend_from_slice(&w.to_be_bytes());
+    ihdr.extend_from_slice(&h.to_be_bytes());
+    ihdr.extend_from_slice(&[8, 6, 0, 0, 0]);
+    chunk(&mut out, b"IHDR", &ihdr);
+    let mut raw = vec![];
+    for y in 0..h as usize {
+        raw.push(0);
+        raw.extend_from_slice(&rgba[y * w as usize * 4..(y + 1) * w as usize * 4]);
+    }
+    let mut z = vec![0x78, 0x01];
+    let mut blocks = raw.chunks(65535).peekable();
+    if raw.is_empty() {
+        z.extend_from_slice(&[1, 0, 0, 0xFF, 0xFF]);
+    }
+    while let Some(b) = blocks.next() {
+        z.push(if blocks.peek().is_none() { 1 } else { 0 });
+        z.extend_from_slice(&(b.len() as u16).to_le_bytes());
+        z.extend_from_slice(&(!(b.len() as u16)).to_le_bytes());
+        z.extend_from_slice(b);
+    }
+    z.extend_from_slice(&adler32(&raw).to_be_bytes());
+    chunk(&mut out, b"IDAT", &z);
+    chunk(&mut out, b"IEND", &[]);
+    out
+}
+
+/// Seed-drawn pixels: a mix of uniformly random values and quantisation-boundary values.
+pub fn gen_pixels(w: u32, h: u32, rng: &mut Rng) -> Vec<u8> {
+    let specials = [0u8, 1, 3, 4, 7, 8, 15, 16, 17, 127, 128, 135, 136, 239, 240, 247, 248, 251, 252, 254, 255];
+    let mut v = Vec::with_capacity((w * h * 4) as usize);
+    let mode = rng.below(4);
+    for _ in 0..(w * h) {
+        for c in 0..4 {
+            let b = match mode {
+                0 => rng.below(256) as u8,
+                1 => *rng.pick(&specials),
+                2 => {
+                    if c == 3 {
+                        255
+                    } else {
+                        rng.below(256) as u8
+                    }
+                }
+                _ => {
+                    if rng.chance(1, 2) {
+                        *rng.pick(&specials)
+                    } else {
+                        rng.below(256) as u8
+                    }
+                }
+            };
+            v.push(b);
+        }
+    }
+    v
+}
+
+const PATH: &str = "subdir/file.png";
+
+fn gen_spec(format: u32, offx: u32, offy: u32, entries: usize) -> String {
+    let mut t = String::from("#pragma mapfile \"map/any.anmm\"\n\n");
+    for k in 0..entries {
+        t.push_str(&format!(
+            "entry {{\n    path: \"{}\",\n    has_data: true,\n    img_format: {},\n    offset_x: {},\n    offset_y: {},\n    colorkey: 0,\n    memory_priority: 0,\n    low_res_scale: false,\n    sprites: {{sprite{}: {{id: {}, x: 0.0, y: 0.0, w: 1.0, h: 1.0}}}},\n}}\n\nscript script{} {{\n    ins_1();\n}}\n\n",
+            PATH, format, offx, offy, k, k, k
+        ));
+    }
+    t
+}
+
+// ------------------------------------------------------------------------------- oracles
+
+/// steps: [.., decompile(orig)->spec, extract(orig)->dir, compile spec -i dir -> from_dir.anm,
+///         compile spec -i orig -> from_anm.anm]; meta: {"orig": path or null (then produced by step 0 as orig.anm), "first": index of the decompile step}
+pub fn oracle_extract_roundtrip(w: &mut Worker, case: &Case) -> Vec<Violation> {
+    let outs = w.golden(case);
+    let mut v = vec![];
+    let first = case.meta.get("first").and_then(|x| x.as_u64()).unwrap_or(0) as usize;
+    let item = case.meta.get("item").and_then(|x| x.as_str()).unwrap_or("?").to_string();
+    if outs.len() <= first || outs[..first].iter().any(|o| !o.ok()) {
+        w.stats.probe("extract-rt:setup-compile-failed(skip)");
+        return v;
+    }
+    let original: Vec<u8> = if first > 0 {
+        match outs[first - 1].files.get("orig.anm") {
+            Some(b) => b.clone(),
+            None => return v,
+        }
+    } else {
+        let p = case.meta.get("orig").and_then(|x| x.as_str()).unwrap_or("");
+        match crate::case::materialise(&case.inputs, &w.ctx.corpus).into_iter().find(|(q, _)| q == p) {
+            Some((_, d)) => d.as_ref().clone(),
+            None => return v,
+        }
+    };
+    let dec = match outs.get(first) {
+        Some(o) if o.ok() && !has_warning(&diagnostics(&o.stderr)) => o,
+        _ => {
+            w.stats.probe("extract-rt:decompile-failed-or-warned(exempt)");
+            return v;
+        }
+    };
+    let _ = dec;
+    let ext = match outs.get(first + 1) {
+        Some(o) => o,
+        None => return v,
+    };
+    if !ext.ok() {
+        // extract may fail loudly (e.g. unknown colour format): allowed
+        w.stats.probe("extract-rt:extract-failed-loudly(exempt)");
+        return v;
+    }
+    if has_warning(&diagnostics(&ext.stderr)) {
+        w.stats.probe("extract-rt:extract-warned(exempt)");
+        return v;
+    }
+    w.stats.nontrivial.insert(rng::hash_bytes(case.name.as_bytes()));
+    let from_dir = outs.get(first + 2);
+    match from_dir {
+        Some(o) if o.ok() => match o.files.get("from_dir.anm") {
+            Some(b) if *b == original => w.stats.probe("extract-rt:from-dir-identical"),
+            Some(b) => {
+                let pos = b.iter().zip(original.iter()).position(|(x, y)| x != y).unwrap_or(b.len().min(original.len()));
+                v.push(Violation { class: format!("extract-rt:from-dir-differs:{}", item), detail: format!("{} vs {} bytes, first difference at {}; {}", original.len(), b.len(), pos, case.name) });
+            }
+            None => v.push(Violation { class: format!("extract-rt:no-output:{}", item), detail: case.name.clone() }),
+        },
+        Some(o) => v.push(Violation { class: format!("extract-rt:compile-from-dir-failed:{}", item), detail: format!("{}: {}", case.name, short(&o.stderr, 400)) }),
+        None => {}
+    }
+    // control: ANM source copies textures verbatim.  (the pipeline stops at the first failing step,
+    // so the control only exists if the from-dir compile succeeded)
+    if let Some(o) = outs.get(first + 3) {
+        if o.ok() {
+            match o.files.get("from_anm.anm") {
+                Some(b) if *b == original => w.stats.probe("extract-rt:from-anm-identical"),
+                Some(_) => v.push(Violation { class: format!("extract-rt:from-anm-differs:{}", item), detail: case.name.clone() }),
+                None => {}
+            }
+        } else {
+            v.push(Violation { class: format!("extract-rt:compile-from-anm-failed:{}", item), detail: format!("{}: {}", case.name, short(&o.stderr, 400)) });
+        }
+    }
+    v
+}
+
+/// steps: [setup.., compile spec <sources in order> -> multi.anm, compile spec <model source> -> model.anm]
+/// meta: {"first": index of the multi compile}
+pub fn oracle_multisource(w: &mut Worker, case: &Case) -> Vec<Violation> {
+    let outs = w.golden(case);
+    let mut v = vec![];
+    let first = case.meta.get("first").and_then(|x| x.as_u64()).unwrap_or(0) as usize;
+    if outs.len() <= first || outs[..first].iter().any(|o| !o.ok()) {
+        w.stats.probe("multisource:setup-failed(skip)");
+        return v;
+    }
+    let expect_fail = case.meta.get("expect_fail").and_then(|x| x.as_bool()).unwrap_or(false);
+    let multi = &outs[first];
+    if expect_fail {
+        w.stats.nontrivial.insert(rng::hash_bytes(case.name.as_bytes()));
+        if multi.ok() {
+            v.push(Violation { class: "model:no-supplier-but-success".into(), detail: case.name.clone() });
+        }
+        return v;
+    }
+    if !multi.ok() {
+        v.push(Violation { class: "model:multi-source-compile-failed".into(), detail: format!("{}: {}", case.name, short(&multi.stderr, 300)) });
+        return v;
+    }
+    let model = match outs.get(first + 1) {
+        Some(o) if o.ok() => o,
+        _ => {
+            w.stats.probe("multisource:model-compile-failed(skip)");
+            return v;
+        }
+    };
+    w.stats.nontrivial.insert(rng::hash_bytes(case.name.as_bytes()));
+    if multi.files.get("multi.anm") != model.files.get("model.anm") {
+        v.push(Violation { class: "model:last-wins".into(), detail: format!("{}: output with all sources differs from output with only the last supplying source", case.name) });
+    } else {
+        w.stats.probe("multisource:agrees-with-model");
+    }
+    v
+}
+
+// ------------------------------------------------------------------------------- scenarios
+
+fn roundtrip_steps(orig: &str, game: &str) -> Vec<Step> {
+    vec![
+        Step::new(vec![s("truanm"), s("decompile"), s("-g"), s(game), s(orig), s("-m"), s("map/any.anmm"), s("-o"), s("spec.txt")]),
+        Step::new(vec![s("truanm"), s("extract"), s("-g"), s(game), s(orig), s("-o"), s("ext")]),
+        Step::new(vec![s("truanm"), s("compile"), s("-g"), s(game), s("spec.txt"), s("-i"), s("ext"), s("-o"), s("from_dir.anm")]),
+        Step::new(vec![s("truanm"), s("compile"), s("-g"), s(game), s("spec.txt"), s("-i"), s(orig), s("-o"), s("from_anm.anm")]),
+    ]
+}
+
+pub fn generated_case(seed: u64, idx: u64) -> Case {
+    let mut rng = Rng::new(rng::mix(seed, "c17-gen", idx));
+    let format = *rng.pick(&[1u32, 3, 5, 7]);
+    let (w, h) = if rng.chance(1, 4) { (rng.range(1, 4) as u32, rng.range(1, 4) as u32) } else { (rng.range(1, 64) as u32, rng.range(1, 64) as u32) };
+    let (ox, oy) = if rng.chance(1, 2) { (0, 0) } else { (rng.below(9) as u32, rng.below(9) as u32) };
+    let entries = if rng.chance(1, 5) { 2 } else { 1 };
+    let game = *rng.pick(&["th12", "th10", "th16", "th08"]);
+    let png = encode_png(w + ox, h + oy, &gen_pixels(w + ox, h + oy, &mut rng));
+    let mut steps = vec![Step::new(vec![s("truanm"), s("compile"), s("-g"), s(game), s("gen.spec"), s("-i"), s("gen"), s("-o"), s("orig.anm")])];
+    steps.extend(roundtrip_steps("orig.anm", game));
+    Case {
+        property: "C17".into(),
+        oracle: "extract-roundtrip".into(),
+        name: format!("generated#{} {} fmt={} {}x{}+{}+{} entries={}", idx, game, format, w, h, ox, oy, entries),
+        inputs: vec![Input::tree("map/"), Input::text("gen.spec", &gen_spec(format, ox, oy, entries)), Input::bytes(&format!("gen/{}", PATH), png)],
+        steps,
+        meta: json!({"first": 1, "item": "generated"}),
+    }
+}
+
+pub fn multisource_cases(seed: u64, n: u64) -> Vec<Case> {
+    let mut out = vec![];
+    for idx in 0..n {
+        let mut rng = Rng::new(rng::mix(seed, "c17-multi", idx));
+        let format = *rng.pick(&[1u32, 3, 5, 7]);
+        let (w, h) = (rng.range(1, 24) as u32, rng.range(1, 24) as u32);
+        let game = "th12";
+        let mut inputs = vec![Input::tree("map/"), Input::text("gen.spec", &gen_spec(format, 0, 0, if rng.chance(1, 4) { 2 } else { 1 })), Input::text("dirE/.keep", ""), Input::bytes("dirO/other.png", encode_png(2, 2, &gen_pixels(2, 2, &mut rng)))];
+        for d in ["dirA", "dirB", "dirC"] {
+            inputs.push(Input::bytes(&format!("{}/{}", d, PATH), encode_png(w, h, &gen_pixels(w, h, &mut rng))));
+        }
+        // setup: srcC.anm embeds image C
+        let setup = Step::new(vec![s("truanm"), s("compile"), s("-g"), s(game), s("gen.spec"), s("-i"), s("dirC"), s("-o"), s("srcC.anm")]);
+        // draw an ordering of 1..3 sources out of {dirA, dirB, srcC.anm, dirE (empty), dirO (other path)}
+        let pool = ["dirA", "dirB", "srcC.anm", "dirE", "dirO"];
+        let k = rng.range(1, 3) as usize;
+        let mut order: Vec<&str> = vec![];
+        while order.len() < k {
+            let c = *rng.pick(&pool);
+            if !order.contains(&c) || rng.chance(1, 6) {
+                order.push(c);
+            }
+        }
+        let supplier = order.iter().rev().find(|x| ["dirA", "dirB", "srcC.anm"].contains(x)).cloned();
+        let mut multi = vec![s("truanm"), s("compile"), s("-g"), s(game), s("gen.spec")];
+        // sources may also come from `#pragma image_source` lines in the script (which precede CLI ones);
+        // here: CLI only, in order
+        for o in &order {
+            multi.push(s("-i"));
+            multi.push(s(o));
+        }
+        multi.extend([s("-o"), s("multi.anm")]);
+        let mut steps = vec![setup, Step::new(multi)];
+        let mut meta = json!({"first": 1});
+        match supplier {
+            Some(sup) => steps.push(Step::new(vec![s("truanm"), s("compile"), s("-g"), s(game), s("gen.spec"), s("-i"), s(sup), s("-o"), s("model.anm")])),
+            None => meta["expect_fail"] = json!(true),
+        }
+        out.push(Case { property: "C17".into(), oracle: "multisource".into(), name: format!("multisource#{} fmt={} {}x{} order={:?}", idx, format, w, h, order), inputs, steps, meta });
+    }
+    out
+}
+
+pub fn run(ctx: &Ctx) -> CheckResult {
+    let quick = ctx.tier == Tier::Quick;
+    let mut cases: Vec<Case> = vec![];
+    // (a) corpus ANMs (resources have embedded images; b2b ones mostly have none: control only)
+    for item in ctx.corpus.binaries().filter(|b| b.cmd == "truanm") {
+        let path = item.path.clone().unwrap();
+        cases.push(Case {
+            property: "C17".into(),
+            oracle: "extract-roundtrip".into(),
+            name: format!("corpus:{}", item.id),
+            inputs: vec![Input::tree("map/"), Input::corpus(&path)],
+            steps: roundtrip_steps(&path, &item.game),
+            meta: json!({"first": 0, "orig": path, "item": item.id}),
+        });
+    }
+    // (b) generated textures
+    let n_gen = if quick { 220 } else { 4000 };
+    for i in 0..n_gen {
+        cases.push(generated_case(ctx.seed, i));
+    }
+    // (c) source orderings
+    cases.extend(multisource_cases(ctx.seed, if quick { 150 } else { 2500 }));
+    let (_r, mut stats, mut findings, mut herr) = par_map(ctx, &cases, |w, _, c| w.judge(c));
+
+    // (d) faults: extract's write side, compile-from-dir's read side
+    let mut jobs: Vec<FaultJob> = vec![];
+    let fault_bases: Vec<Case> = {
+        let mut v: Vec<Case> = cases.iter().filter(|c| c.name.starts_with("corpus:res/th12-embedded-image-source") || c.name.starts_with("corpus:res/th12-embedded-weird")).cloned().collect();
+        let n = if quick { 3 } else { 40 };
+        v.extend((0..n).map(|i| generated_case(ctx.seed ^ 0xFA17, i)));
+        v
+    };
+    for base in fault_bases {
+        let first = base.meta.get("first").and_then(|x| x.as_u64()).unwrap_or(0) as usize;
+        let seed = rng::mix(ctx.seed, &base.name, 17);
+        jobs.push(FaultJob { base: base.clone(), step: first + 1, space: FaultSpace { read_side: false, write_side: true, budgets: if quick { Budgets::BoundariesPlus(10) } else { Budgets::BoundariesPlus(200) }, seed }, noise: true, max_variants: if quick { 150 } else { 0 } });
+        jobs.push(FaultJob { base, step: first + 2, space: FaultSpace { read_side: true, write_side: false, budgets: Budgets::Boundaries, seed }, noise: true, max_variants: if quick { 120 } else { 0 } });
+    }
+    let camp = run_fault_campaign(ctx, &jobs);
+    stats.merge(camp.stats);
+    findings.extend(camp.findings);
+    herr.extend(camp.harness_errors);
+
+    let mut extra = BTreeMap::new();
+    extra.insert("roundtrip_and_model_cases".into(), json!(cases.len()));
+    extra.insert("generated_textures".into(), json!(n_gen));
+    extra.insert("fault_jobs".into(), json!(jobs.len()));
+    extra.insert("fault_variants".into(), json!(camp.variants));
+    let mut samples = camp.samples;
+    for c in cases.iter().step_by((cases.len() / 3).max(1)).take(3) {
+        samples.push(json!({"case": c.name, "steps": c.steps.iter().map(|s| s.argv.join(" ")).collect::<Vec<_>>()}));
+    }
+    CheckResult {
+        property: "C17".into(),
+        level: "exploration",
+        stats,
+        findings,
+        harness_errors: herr,
+        rule: "seeded generation: RGBA PNG (random + quantisation-boundary pixels) compiled into a 1-2 entry ANM with img_format in {1,3,5,7}, dimensions 1..64, offsets 0..8, game in {th08,th10,th12,th16}; then decompile/extract/compile-from-dir/compile-from-anm and whole-file identity; source orderings of 1..3 out of {dirA, dirB, srcC.anm, empty dir, dir with another path} against the last-supplier model; plus the corpus ANMs; plus single I/O faults on extract (write side) and on compile-from-dir (read side). non-trivial = the identity/model was actually demanded (no exemption applied) or a fault fired; distinct = case fingerprint".into(),
+        samples,
+        extra,
+        exhaustive: false,
+        assumptions: vec!["pixels are sampled by seed; the exhaustive sweep over all 16-bit / 8-bit pixel values is a pure function of a pixel and is not claimed".into(), "the PNGs fed to the first compile come from the harness's own stored-deflate encoder".into()],
+    }
 }
